@@ -39,8 +39,13 @@ func construct(t *rapid.T, friendly bool) sigCase {
 		how = "chosen-R"
 	}
 	dlen := 32
-	if rapid.IntRange(0, 3).Draw(t, "longdigest") == 0 {
+	switch rapid.IntRange(0, 9).Draw(t, "longdigest") {
+	case 0, 1:
 		dlen = rapid.IntRange(33, 64).Draw(t, "dlen")
+	case 2:
+		// longer than any hash output: the statement puts no upper bound on the digest ("e is the leftmost
+		// 256 bits of the digest"), and with no hash selected the library documents none either
+		dlen = rapid.IntRange(65, 160).Draw(t, "dlen-over")
 	}
 	alias := rapid.Bool().Draw(t, "alias-digest")
 	var c sigCase
